@@ -103,6 +103,14 @@ Proof.
       * constructor; [split; auto | assumption].
 Qed.
 
+Lemma dict_of_rel ks : forall ls1 ls2 acc1 acc2, Forall2 R ls1 ls2 -> Forall2 kv_rel acc1 acc2 ->
+  Forall2 kv_rel (fold_left (fun acc kv => dict_set acc (fst kv) (snd kv)) (combine ks ls1) acc1)
+                 (fold_left (fun acc kv => dict_set acc (fst kv) (snd kv)) (combine ks ls2) acc2).
+Proof.
+  induction ks as [|k ks IH]; intros ls1 ls2 acc1 acc2 F A; cbn; [exact A|].
+  inversion F; subst; cbn; [exact A|]. apply IH; [assumption|]. apply dict_set_rel; assumption.
+Qed.
+
 Lemma Forall2_update {A B} (P : A -> B -> Prop) l1 l2 : Forall2 P l1 l2 -> forall i x1 x2, P x1 x2 ->
   Forall2 P (update l1 i x1) (update l2 i x2).
 Proof. induction 1; intros [|i] x1 x2 Px; cbn; constructor; auto. Qed.
@@ -348,6 +356,17 @@ Proof.
     destruct (lookup_rel_some _ _ _ _ _ ER L1) as (l2 & L2 & Rl). rewrite L2. inversion E; subst.
     eexists _, n. split; [reflexivity|]. split; [|lia]. apply Inv_bind; auto.
     intros O. rewrite O in W. cbn in W. destruct src; try discriminate. eapply inv_own; eauto.
+  - (* ListOf *)
+    destruct (mapM (lookup (ven σ1)) items) as [ls1|] eqn:A1; try discriminate. inversion E; subst.
+    destruct (mapM_lookup_rel _ _ _ _ ER _ A1) as (ls2 & A2 & FA). rewrite A2.
+    eexists _, (S n). split; [reflexivity|]. split; [|lia]. apply Inv_alloc; auto. cbn.
+    eapply Forall2_mono; [|exact FA]. intros; eapply Rc_mono; [|eassumption]. lia.
+  - (* DictOf *)
+    destruct (mapM (lookup (ven σ1)) (map snd kvs)) as [ls1|] eqn:A1; try discriminate. inversion E; subst.
+    destruct (mapM_lookup_rel _ _ _ _ ER _ A1) as (ls2 & A2 & FA). rewrite A2.
+    eexists _, (S n). split; [reflexivity|]. split; [|lia]. apply Inv_alloc; auto. cbn.
+    apply dict_of_rel; [|constructor].
+    eapply Forall2_mono; [|exact FA]. intros; eapply Rc_mono; [|eassumption]. lia.
 Qed.
 
 Lemma exec_sim p : forall n σ1 σ2 σ1', wf_script p = true -> Inv n σ1 σ2 -> exec p σ1 = Some σ1' ->
